@@ -37,8 +37,11 @@ def log(*a):
 
 def run_cmd(cmd, timeout, mem_gb=None, cwd=None, env=None, stdin=None):
     """run under timeout and an address-space limit; returns dict(rc, out, err, wall, rss_mb, timed_out)"""
-    tf = tempfile.NamedTemporaryFile(prefix='nmv-time-', delete=False); tf.close()
-    full = ['/usr/bin/time', '-f', '%M', '-o', tf.name] + cmd
+    # every child gets a private TMPDIR that is removed afterwards: a cbmc killed at its time budget otherwise leaves its CNF / SMT2 hand-over files (up to ~1 GB each) behind in /tmp
+    td = tempfile.mkdtemp(prefix='nmv-tmp-', dir=os.environ.get('NMV_SCRATCH', '/var/tmp'))
+    tfname = os.path.join(td, 'time')
+    env = dict(os.environ if env is None else env, TMPDIR=td)
+    full = ['/usr/bin/time', '-f', '%M', '-o', tfname] + cmd
     def pre():
         os.setsid()
         if mem_gb:
@@ -58,11 +61,11 @@ def run_cmd(cmd, timeout, mem_gb=None, cwd=None, env=None, stdin=None):
     wall = time.time() - t0
     rss = 0
     try:
-        txt = open(tf.name).read().strip().split('\n')[-1]
+        txt = open(tfname).read().strip().split('\n')[-1]
         rss = int(txt) // 1024
     except Exception:
         pass
-    os.unlink(tf.name)
+    shutil.rmtree(td, ignore_errors=True)
     return dict(rc=p.returncode, out=out.decode('utf-8', 'replace'), err=err.decode('utf-8', 'replace'), wall=wall, rss_mb=rss, timed_out=timed_out)
 
 
